@@ -12,7 +12,7 @@ def native_stub(ex_, st, fr, callee, args):
     """an unknown native word reached through a symbolic function pointer: any result, state untouched
     (what individual words do to the state is the subject of the per-word lemmas)"""
     # deterministic name: two drive modes of a relational lemma must see the same (arbitrary) answer of the same word
-    nm = "native_result!%d" % len(st.frames)
+    nm = "native_result"          # one native call per VM step; independent of the call depth (next / run wrap the step)
     return Enum("Result<(), error::Xerr>", None, None, origin=nm, discr=z3.BitVec(nm + ".discr", 64))
 
 
